@@ -6,6 +6,7 @@ RULE = ("mode 4: timed sequences of 10..60 well-formed STORE and streamed FETCH 
         "one, gaps 0, 1, 5, 29, 30, 31 s; daemon token absent (the case the property is about) or configured. Oracle "
         "(independent of the model, python sliding window): with no configured token a client address gets a STORE accepted "
         "iff fewer than 6 of its STOREs were accepted in the last 30 s (12 for streamed FETCH), whatever TOKEN it sends. "
+        "mode 7: the same sequences with store proof-of-work on (difficulty 1/4/6/8): valid STOREs, STOREs with a wrong nonce or without one and streamed FETCHes mixed (alternating wrong / valid; random; mostly FETCH) -- every STORE-path request takes a slot, and proof-of-work failures or successes must not change what the limiter remembers. "
         "mode 6: one STORE against a fresh daemon (real parse_request + handle_store) with store PoW difficulty 0/4/9/12/15/17, "
         "TTL window [30|60, 3600|21600], payload cap 16/64/1024: declared length at, below and above the cap (also 2^40, 2^64, "
         "malformed, absent, larger than the body sent, with little or no body sent), TTL at and one outside either bound, "
@@ -134,6 +135,27 @@ def generate(rng, tier):
             tok = rng.choice([None, b"", b"a", b"b", b"t%d" % i, b"secret"])
             ev += [dt, kind, remote] + opt(tok)
         cases.append({"ints": [4] + opt(conf) + ev, "tag": "sequence"})
+    # the same with store proof-of-work on: valid STOREs (kind 0), STOREs with a wrong nonce (2) or without one (3) and streamed
+    # FETCHes mixed in bursts; every STORE-path request takes a limiter slot whether or not its proof of work is good, and a
+    # failed or accepted proof of work must not change what the limiter remembers
+    for j in range(n):
+        d = rng.choice([1, 4, 6, 8])
+        good = find_nonce(b"xyz", b"", d, 256, rng.randrange(1000))
+        bad = find_nonce(b"xyz", b"", 0, d - 1, rng.randrange(1000))
+        conf = None if rng.random() < 0.85 else b"secret"
+        ev = []
+        style = j % 3
+        for i in range(rng.choice([12, 25, 40])):
+            dt = rng.choice([0, 0, 0, 0, 1, 5, 29, 30, 31])
+            if style == 0:
+                kind = [2, 0][i % 2]                         # wrong nonce, valid nonce, wrong nonce, ...
+            elif style == 1:
+                kind = rng.choice([0, 0, 2, 3, 1])
+            else:
+                kind = rng.choice([1, 1, 1, 2, 0])           # mostly streamed FETCHes, now and then a failure followed by a valid STORE
+            remote = rng.choice([1, 1, 1, 2])
+            ev += [dt, kind, remote] + opt(rng.choice([None, None, b"a", b"t%d" % i]))
+        cases.append({"ints": [7, d, good, bad] + opt(conf) + ev, "tag": "sequence-pow"})
     return cases
 
 
@@ -196,7 +218,8 @@ def judge(case, impl, model):
         return {"fail": f"C28|abnormal|{impl[:2]}"}
     if ints[0] == 6:
         return judge_admission(ints, impl)
-    p = 1
+    p = 1 if ints[0] == 4 else 4
+    powd = 0 if ints[0] == 4 else ints[1]
     def ropt():
         nonlocal p
         if ints[p] == 0:
@@ -216,13 +239,19 @@ def judge(case, impl, model):
         got = impl[i]; i += 1
         if got == -9:
             return {"fail": "C28|well-formed-request-failed-otherwise"}
-        key = (kind, remote if conf is None else "token")
+        path = 1 if kind == 1 else 0            # kinds 0, 2, 3 are STOREs (valid, wrong or missing proof of work)
+        key = (path, remote if conf is None else "token")
         h = [t for t in acc.get(key, []) if now - t <= 30]
-        limit = 6 if kind == 0 else 12
-        want = 1 if len(h) < limit else 0
+        limit = 6 if path == 0 else 12
+        want = 0 if len(h) >= limit else (2 if (kind in (2, 3) and powd > 0) else 1)
+        kind = path
         if got != want:
-            if got == 1:
+            if got in (1, 2) and want == 0:
                 return {"fail": "C28|rate-limit-exceeded|" + ("store" if kind == 0 else "fetch")}
+            if got == 1 and want == 2:
+                return {"fail": "C28|store-accepted-without-valid-pow"}
+            if got == 2 and want == 1:
+                return {"fail": "C28|valid-pow-refused"}
             return {"fail": "C28|refused-below-the-limit|" + ("store" if kind == 0 else "fetch")}
         if got:
             h.append(now)
